@@ -70,6 +70,19 @@ func (sig Multi[T]) RangeWhile(f func(hotstuff.ID) bool) {
 	}
 }
 
+// hasDuplicateSigner reports whether some signer appears more than once in the multi-signature.
+// Len counts entries, so a verified multi-signature must not repeat a signer.
+func (sig Multi[T]) hasDuplicateSigner() bool {
+	seen := make(map[hotstuff.ID]struct{}, len(sig))
+	for _, s := range sig {
+		if _, ok := seen[s.Signer()]; ok {
+			return true
+		}
+		seen[s.Signer()] = struct{}{}
+	}
+	return false
+}
+
 // Len returns the number of entries in the set.
 func (sig Multi[T]) Len() int {
 	return len(sig)
